@@ -166,8 +166,15 @@ class IndentedLine(AbstractValue):
         if name == 'lstrip' and (not args or args[0] in (' ', ' \t')):
             return Rest()
         if name in ('startswith',):
-            if args and isinstance(args[0], str) and args[0] and args[0][0] != ' ':
-                return self.indent == 0 and Cond(('rest-startswith', args[0]))
+            off = 0
+            if len(args) > 1:
+                a = Aff.lift(args[1])
+                off = a.const if a is not None and a.is_const() else None
+            if args and isinstance(args[0], str) and args[0] and args[0][0] != ' ' and off is not None:
+                if off < self.indent:
+                    return False          # a space is there
+                if off == self.indent:
+                    return Cond(('rest-startswith', args[0]))
             return Cond(('line-test', name, _freeze_args(args)))
         if name == 'replace':
             return self
@@ -176,6 +183,37 @@ class IndentedLine(AbstractValue):
     def abs_getattr(self, interp, name):
         from ..domains import _AbsBound
         return _AbsBound(self, name)
+
+    def abs_getitem(self, interp, idx):
+        def const(x):
+            a = Aff.lift(x) if x is not None else None
+            return a.const if a is not None and a.is_const() else None
+        if isinstance(idx, slice) and idx.step is None:
+            lo, hi = const(idx.start) if idx.start is not None else 0, const(idx.stop) if idx.stop is not None else None
+            if lo is not None and idx.stop is None and 0 <= lo <= self.indent:
+                return Rest() if lo == self.indent else IndentedLine(self.indent - lo)
+            if lo == 0 and hi is not None and 0 <= hi <= self.indent:
+                return ' ' * hi
+            return Unknown('line[:]')
+        k = const(idx)
+        if k is not None and 0 <= k < self.indent:
+            return ' '
+        if k is not None and k == self.indent:
+            return RestChar()
+        return Unknown('line[]')
+
+
+class RestChar(AbstractValue):
+    """First character of the line after its leading spaces."""
+    prov = ('rest-char',)
+
+    def abs_compare(self, interp, op, other, reflected):
+        if isinstance(other, str) and op in (ast.Eq, ast.NotEq):
+            if other == ' ' or len(other) != 1:
+                return op is ast.NotEq
+            c = Cond(('rest-startswith', other))
+            return c if op is ast.Eq else interp.negate(c)
+        return Unknown('restchar-cmp')
 
 
 class Rest(AbstractValue):
@@ -195,6 +233,9 @@ class Rest(AbstractValue):
         return _AbsBound(self, name)
 
     def abs_getitem(self, interp, idx):
+        a = Aff.lift(idx) if not isinstance(idx, slice) else None
+        if a is not None and a.is_const() and a.const == 0:
+            return RestChar()
         return Unknown('rest[]')
 
 
